@@ -957,6 +957,19 @@ impl Storage {
     ///
     /// N.B. The specified block will be removed.
     pub fn rollback_to_block(&self, to_number: BlockNumber) {
+        self.rollback_to_block_with_filtered_number(to_number, to_number)
+    }
+
+    /// Rollback filtered block data to specified block number, and record `filtered_number` as
+    /// the block number of the scripts which are rolled back.
+    ///
+    /// N.B. The specified block will be removed, so the scripts are filtered up to its parent
+    /// only: a caller which goes on syncing has to record `to_number - 1`.
+    pub fn rollback_to_block_with_filtered_number(
+        &self,
+        to_number: BlockNumber,
+        filtered_number: BlockNumber,
+    ) {
         let scripts = self.get_filter_scripts();
         let mut batch = self.batch();
 
@@ -1093,7 +1106,7 @@ impl Storage {
                         ScriptType::Lock => &[0],
                         ScriptType::Type => &[1],
                     });
-                    let value = to_number.to_be_bytes().to_vec();
+                    let value = filtered_number.to_be_bytes().to_vec();
                     batch.put(key, value).expect("batch put should be ok");
                 }
             }
